@@ -221,6 +221,24 @@ fn is_argmax(s: &[f64], got: f64) -> bool {
     s.get(got as usize).map(|v| *v >= best - TIE_REL * (1.0 + v.abs() + best.abs())).unwrap_or(false)
 }
 
+/// Training set of the naive-Bayes sub-checks: as generated, or (option 2 = 3 mod 4) the generated rows repeated once
+/// per class so that every class has identical statistics and prior (exact posterior ties on every query).
+fn tied_classes(c: &Case, k: usize, lab: Vec<usize>, obs: &mut Obs) -> (Vec<Vec<f64>>, Vec<usize>) {
+    if c.opt(2, 4) != 3 {
+        return (c.train.clone(), lab);
+    }
+    obs.class("nb_all_classes_identical_exact_ties");
+    let mut train = vec![];
+    let mut labels = vec![];
+    for class in 0..k {
+        for r in &c.train {
+            train.push(r.clone());
+            labels.push(class);
+        }
+    }
+    (train, labels)
+}
+
 pub fn check_gaussian_nb(c: &Case, obs: &mut Obs) {
     if !usable(c, obs) {
         return;
@@ -228,15 +246,18 @@ pub fn check_gaussian_nb(c: &Case, obs: &mut Obs) {
     let k = 2 + c.opt(0, 2) as usize;
     let smoothing = [1e-9, 1e-3][c.opt(1, 2) as usize];
     let lab = case::rank_labels(c, k);
-    let ds = Dataset::new(case::train_x(c), Array1::from(lab.clone()));
+    // one case in four: every class gets the SAME rows (the training set repeated once per class), so that all class
+    // statistics and priors coincide and every query is an exact posterior tie between all classes
+    let (train, lab) = tied_classes(c, k, lab, obs);
+    let ds = Dataset::new(case::to_array(&train, c.p()), Array1::from(lab.clone()));
     let Some(model) = fit_or_skip(obs, || GaussianNb::<f64, usize>::params().var_smoothing(smoothing).fit(&ds)) else {
         return;
     };
     obs.class(if k == 2 { "gnb_2_classes" } else { "gnb_3_classes" });
-    let scores = |x: &[f64]| gnb_scores(&c.train, &lab, k, smoothing, x);
+    let scores = |x: &[f64]| gnb_scores(&train, &lab, k, smoothing, x);
     // a class without spread in some feature (variance + smoothing = 0) makes the likelihood NaN:
     // not a well-posed training set (only reachable through shrinking)
-    if !scores(&c.train[0]).iter().all(|v| v.is_finite()) {
+    if !scores(&train[0]).iter().all(|v| v.is_finite()) {
         obs.skip("skipped_degenerate_training_data");
         return;
     }
@@ -268,12 +289,13 @@ pub fn check_multinomial_nb(c: &Case, obs: &mut Obs) {
     let k = 2 + c.opt(0, 2) as usize;
     let alpha = [1.0, 0.5][c.opt(1, 2) as usize];
     let lab = case::rank_labels(c, k);
-    let ds = Dataset::new(case::train_x(c), Array1::from(lab.clone()));
+    let (train, lab) = tied_classes(c, k, lab, obs);
+    let ds = Dataset::new(case::to_array(&train, c.p()), Array1::from(lab.clone()));
     let Some(model) = fit_or_skip(obs, || MultinomialNb::<f64, usize>::params().alpha(alpha).fit(&ds)) else {
         return;
     };
     obs.class(if k == 2 { "mnb_2_classes" } else { "mnb_3_classes" });
-    let scores = |x: &[f64]| mnb_scores(&c.train, &lab, k, alpha, x);
+    let scores = |x: &[f64]| mnb_scores(&train, &lab, k, alpha, x);
     let spec = Spec::labels(|x, a, b| score_tie(&scores(x), a, b));
     let pred = any_layout::<_, Array1<usize>>(&model);
     if let Some(info) = driver::run(obs, c, &pred, &spec) {
